@@ -37,7 +37,7 @@ INITS = (0x00, 0xFF, 0xA5)
 
 
 def bounds(tier):
-    return {"full_alphabet_layouts": "1..3 fields", "reduced_alphabet_layouts": "4..5 fields" if tier == "quick" else "4..8 fields",
+    return {"full_alphabet_layouts": "1..3 fields", "reduced_alphabet_layouts": "4..5 fields" if tier == "quick" else "4..8 fields (+ all 4-field layouts over the full alphabet, boundary values)",
             "values": "all 2^len for len<=8 in 1-2 field layouts" + (" and 3-field layouts" if tier == "thorough" else "") +
                       "; boundary {min,-1,0,1,max,alternating} otherwise"}
 
@@ -50,6 +50,11 @@ def cases(tier, seed):
     for a in range(len(REDUCED)):
         for b in range(len(REDUCED)):
             out.append({"part": "reduced", "first": [a, b], "maxf": maxf})
+    if tier == "thorough":
+        for a in range(len(FULL)):
+            for b in range(len(FULL)):
+                if FULL[a][1] + FULL[b][1] <= 62:
+                    out.append({"part": "full4", "first": [a, b]})
     k = seed % len(out)
     return out[k:] + out[:k]
 
@@ -281,6 +286,13 @@ def run_case(case, st):
         for lay in layouts:
             eval_layout(lay, st, case, allvals=len(lay) <= 2 or case["allvals3"])
             n += 1
+    elif case["part"] == "full4":
+        a, b = FULL[case["first"][0]], FULL[case["first"][1]]
+        for c in FULL:
+            for d in FULL:
+                if a[1] + b[1] + c[1] + d[1] <= 64:
+                    eval_layout([a, b, c, d], st, case, allvals=False, seq=False)
+                    n += 1
     else:
         a, b = case["first"]
         for k in range(4, case["maxf"] + 1):
